@@ -185,12 +185,12 @@ Lemma p_C17_tr_lengths_never_13 : forall T (S : Scalar T) (l : list (trc (T:=T))
   stage_trs S l [] = Ok r -> forall p, In p r -> snd p <> 13%nat.
 Proof. intros T S l r H. eapply stage_trs_lengths; [exact H|]. intros p []. Qed.
 
-Lemma p_C17_inline_m_rejected : forall T (S : Scalar T) star trs (ps rest : list (tok (T:=T))),
-  forallb numeric_lead ps = true -> forallb (fun p => float_lit (tsp p)) ps = true ->
+Lemma p_C17_inline_m_rejected : forall T (S : Scalar T) isfill star trs (ps rest : list (tok (T:=T))),
+  forallb numeric_lead ps = true -> forallb (fun p => num_lit (tsp p)) ps = true ->
   stops rest -> List.length ps = 13%nat ->
   seqb S (last (map tval ps) (s1 S)) (s1 S) = false ->
   parse_trcl S star trs (ps ++ rest) = Err ETransformation /\
-  fill_params S star trs (ps ++ rest) = Err ETransformation.
+  fill_params S isfill star trs (ps ++ rest) = Err ETransformation.
 Proof. intros; split; [apply trcl_m_rejected|apply inline_m_rejected]; assumption. Qed.
 
 Lemma p_C17_macro_arity_exact : forall T (S : Scalar T) mn (p : list T),
